@@ -2,6 +2,7 @@ package main
 
 import (
 	"fmt"
+	"go/types"
 	"sort"
 	"strings"
 
@@ -299,4 +300,55 @@ func indexOfResult(r *ssa.Return, v ssa.Value) int {
 		}
 	}
 	return 0
+}
+
+// checkLockBearingReceivers: a struct that contains a sync.Mutex / RWMutex / WaitGroup / Once / atomic value (directly or
+// in an embedded or by-value field) must only have pointer receivers: a method with a value receiver works on a COPY of
+// the struct - its Lock() locks a lock nobody else holds (and copies a possibly locked mutex), so the method is no longer
+// serialised with the other operations.
+func checkLockBearingReceivers(p *Prog, r *Report, rule, pkgSuffix string) {
+	var hasLock func(t types.Type, d int) bool
+	hasLock = func(t types.Type, d int) bool {
+		if d > 4 {
+			return false
+		}
+		if n, ok := t.(*types.Named); ok && n.Obj().Pkg() != nil {
+			pp := n.Obj().Pkg().Path()
+			if pp == "sync" || pp == "sync/atomic" {
+				return true
+			}
+		}
+		st, ok := t.Underlying().(*types.Struct)
+		if !ok {
+			return false
+		}
+		for i := 0; i < st.NumFields(); i++ {
+			if hasLock(st.Field(i).Type(), d+1) {
+				return true
+			}
+		}
+		return false
+	}
+	n, bad := 0, 0
+	for _, f := range p.RepoFns {
+		if !keyInPkg(fnKey(f), pkgSuffix) || f.Signature.Recv() == nil || f.Parent() != nil {
+			continue
+		}
+		rt := f.Signature.Recv().Type()
+		if _, isPtr := rt.(*types.Pointer); isPtr {
+			if hasLock(rt.(*types.Pointer).Elem(), 0) {
+				n++
+			}
+			continue
+		}
+		if hasLock(rt, 0) {
+			n++
+			bad++
+			r.Violation(rule, fnKey(f)+": value receiver on a struct that holds a lock", p.pos(f.Pos()),
+				"the method runs on a copy of the struct: the lock it takes is a copy nobody else holds (and copying a locked mutex deadlocks the copy), so the operation is not serialised with ingestion, scans and the other queries")
+		}
+	}
+	if bad == 0 {
+		r.OK(rule, pkgSuffix+": methods of lock-bearing structs have pointer receivers", pkgSuffix, fmt.Sprintf("%d methods", n), true)
+	}
 }
